@@ -112,6 +112,68 @@ def literal_condition_progs(lits):
             out.append('x := 0\nfor i := 5; %s; i++ { x += i; if x > 20 { break } }\nreturn x\n' % e)
     return out
 
+OX_BIN = {"add": "+", "sub": "-", "mul": "*", "quo": "/", "rem": "%", "and": "&", "or": "|", "xor": "^", "andnot": "&^", "shl": "<<", "shr": ">>",
+          "lt": "<", "le": "<=", "gt": ">", "ge": ">="}
+OX_UN = {"not": "!", "sub": "-", "xor": "^", "add": "+"}
+
+def gen_oexpr(rng, lits, depth, const_bias, numeric=False):
+    """source text of an expression over literals of every kind, parameters p0..p2, every binary and unary operator,
+    == / !=, && / || and ?:; const_bias: probability that a leaf is a literal (constant sub-trees are what the optimizer
+    folds); numeric: the operand of an arithmetic operator - mostly numbers, so that most constant sub-trees have a value"""
+    if depth <= 0 or rng.random() < .25:
+        if rng.random() < const_bias:
+            pool = [v for v in lits if v[0] in ("i", "u", "f", "c", "b")] if (numeric and rng.random() < .85) else lits
+            for _ in range(20):
+                t = lit_source(rng.choice(pool))
+                if t is not None: return t
+            return "1"
+        return "p%d" % rng.randrange(3)
+    k = rng.randrange(10)
+    sub = lambda num=False: gen_oexpr(rng, lits, depth - 1, const_bias if rng.random() < .8 else 1.0, num)
+    if k <= 4:
+        op = rng.choice(sorted(OX_BIN))
+        if op in ("quo", "rem") and rng.random() < .7: return "(%s %s %s)" % (sub(True), OX_BIN[op], rng.choice(["2", "3", "(-5)", "7u", "2.5", "p1"]))
+        return "(%s %s %s)" % (sub(True), OX_BIN[op], sub(True))
+    if k == 5: return "(%s %s %s)" % (sub(), rng.choice(["==", "!="]), sub())
+    if k == 6: return "(%s%s)" % (OX_UN[rng.choice(sorted(OX_UN))], sub(True))
+    if k == 7: return "(%s %s %s)" % (sub(), rng.choice(["&&", "||"]), sub())
+    return "(%s ? %s : %s)" % (sub(), sub(numeric), sub(numeric))
+
+def run_optexpr(rng, lits, tier, fails):
+    """translation validation: the expression trees before and after the real optimizer through the validator fold_ok"""
+    n = 3000 if tier == "quick" else 60000
+    small = [v for v in lits if not (v[0] in ("i", "u") and abs(int(v[1])) > 2**31 and rng.random() < .6)]
+    cases = []
+    for i in range(n):
+        e = gen_oexpr(rng, small, rng.randrange(1, 5), rng.choice([.5, .7, .9]))
+        src = "param (p0, p1, p2)\nreturn %s\n" % e
+        c = mk_case("ox%d" % i, "optexpr", str(rng.choice([1, 2, 3, 8, 100, 100, 100])), hexs(src.encode())); c["src"] = src
+        cases.append(c)
+    impl, _ = vlib.run_impl([c["line"] for c in cases], timeout=1200)
+    mcases = []
+    for c in cases:
+        out = impl.get(c["id"]); c["impl"] = out
+        if out is None or out.startswith("(panic"): fails.append((c, "the optimizer panicked: %s" % out, c["src"])); continue
+        if not out.startswith("(optexpr"): fails.append((c, "the generated script could not be read back: %s" % out[:100], c["src"])); continue
+        sx = vlib.parse_sexp(out)
+        m = mk_case(c["id"], "optexpr", sx[1], sx[2]); m["parent"] = c; m["refused"] = sx[2][0] == "refused"
+        mcases.append(m)
+    model, _ = vlib.run_model([m["line"] for m in mcases], timeout=1200)
+    stats = {"accepted": 0, "refusals_justified": 0, "unchanged": 0, "inconclusive": 0}
+    suspects = []
+    for m in mcases:
+        got = model.get(m["id"]); c = m["parent"]
+        if got == "(inconclusive)": stats["inconclusive"] += 1; continue      # a constant whose value the operator model leaves open (float appended to a string)
+        if m["refused"]:
+            if got == "(justified 1)": stats["refusals_justified"] += 1
+            else: fails.append((c, "the optimizer refused a script none of whose constant sub-expressions fails (%s): %s" % (got, c["impl"][-120:]), c["src"]))
+        elif got == "(b 1)":
+            stats["accepted"] += 1
+            sx = vlib.parse_sexp(c["impl"])
+            if vlib.sexp_str(sx[1]) == vlib.sexp_str(sx[2][1]): stats["unchanged"] += 1
+        else: suspects.append(c)
+    return cases, stats, suspects
+
 def run(rep, br, proofs, rng, tier):
     # ---- level 1: folding tables, exhaustive over literal pool^2 x operators
     lits = [v for v in c15.pool() if v[0] in ("i", "u", "f", "s", "b", "c", "n")]
@@ -192,8 +254,38 @@ def run(rep, br, proofs, rng, tier):
             if vlib.sexp_str(res) != basestr:
                 fails.append((c, "OptimizerLimit %s changes the outcome: off %s, on %s" % (lim, basestr[:300], vlib.sexp_str(res)[:300]), s)); break
             compared += 1
+    # ---- level 3: translation validation of the optimizer on expression trees (theorem C01_fold_validated)
+    ox_cases, ox_stats, ox_suspects = run_optexpr(rng, lits, tier, fails)
+    ox_unexplained = []
+    if ox_suspects:
+        # the validator does not accept what the optimizer did: look for values of the parameters on which the two
+        # programs differ (optimizer off vs on), otherwise the broken obligation is reported as such
+        ARGS = [("1", "2", "3"), ("0", "\"s\"", "1.5"), ("(-7)", "true", "undefined"), ("2.5", "'a'", "9u"), ("\"\"", "0", "false")]
+        scases = []
+        for c in ox_suspects[:40]:
+            for j, (a, b, d) in enumerate(ARGS):
+                src = "p0 := %s\np1 := %s\np2 := %s\n%s" % (a, b, d, c["src"].split("\n", 1)[1])
+                sc = mk_case("%s.s%d" % (c["id"], j), "optprog", hexs(src.encode()), ["limits"] + [str(x) for x in LIMITS], *[hexs(m.encode()) for m in MODS])
+                sc["src"], sc["parent"] = src, c; scases.append(sc)
+        simpl, _ = vlib.run_impl([c["line"] for c in scases], timeout=1200)
+        found = set()
+        for sc in scases:
+            out = simpl.get(sc["id"])
+            if not out: continue
+            sx = vlib.parse_sexp(out); basestr = vlib.sexp_str(sx[1][1])
+            for o in sx[2:]:
+                if o[2][0] in ("optimizer-error", "compile-error", "compile-panic"): continue
+                if vlib.sexp_str(o[2]) != basestr and sc["parent"]["id"] not in found:
+                    found.add(sc["parent"]["id"])
+                    fails.append((sc, "the optimizer rewrote an expression into one the validator fold_ok rejects, and OptimizerLimit %s changes the outcome: off %s, on %s" % (o[1], basestr[:200], vlib.sexp_str(o[2])[:200]), sc["src"]))
+        ox_unexplained = [c for c in ox_suspects if c["id"] not in found]
     for c, why, s in fails[:10]:
         rep.violation({"property": "C01", "kind": "oracle", "why": why, "case": c["line"][:2000], "script": s})
+    if not fails:
+        for c in ox_unexplained[:5]:
+            rep.violation({"property": "C01", "kind": "proof-obligation", "theorem": "C01_fold_validated",
+                           "why": "the expression the optimizer returned is not related to its input by the validator fold_ok (constant sub-expressions replaced by the literal of their value); no parameter values were found on which the programs differ",
+                           "case": c["line"][:2000], "script": c["src"], "impl": c["impl"][:1500]}, found=False)
     if not fails:
         for c in dis[:10]:
             rep.violation({"property": "C01", "kind": "correspondence", "why": "folding table model (Comp/Fold.v) and implementation disagree",
@@ -201,10 +293,10 @@ def run(rep, br, proofs, rng, tier):
     folded = sum(1 for c in cases if c["impl"] and c["impl"].startswith("(fold"))
     rep.coverage.update({
         "evaluations": len(cases) + len(pcases) * (len(LIMITS) + 1), "distinct_nontrivial": folded + compared,
-        "rule": "folding tables called through the hook over literal pool x literal pool (same-kind pairs exhaustively, mixed pairs sampled) x 15 binary operators, 4 unary operators and isLiteralFalsy, each folded result re-computed by the VM operator; programs crossing every binding form that can shadow a builtin (:=, var, const, param, global, function parameter, variadic parameter, for-in key / value, catch identifier, nested function scope, destructuring, block) with builtin calls on constant operands, constant expressions and literal conditions, every literal of the pool (and constant expressions folding to it) as the condition of if / else, ?:, !, && / ||, and for, compiled with the optimizer off and with OptimizerLimit in %s and run with equal arguments; non-trivial = a fold happened / outcomes compared" % LIMITS,
+        "rule": "folding tables called through the hook over literal pool x literal pool (same-kind pairs exhaustively, mixed pairs sampled) x 15 binary operators, 4 unary operators and isLiteralFalsy, each folded result re-computed by the VM operator; programs crossing every binding form that can shadow a builtin (:=, var, const, param, global, function parameter, variadic parameter, for-in key / value, catch identifier, nested function scope, destructuring, block) with builtin calls on constant operands, constant expressions and literal conditions, every literal of the pool (and constant expressions folding to it) as the condition of if / else, ?:, !, && / ||, and for, compiled with the optimizer off and with OptimizerLimit in %s and run with equal arguments; generated expressions over literals of every kind, parameters, every operator, == / !=, && / || and ?: parsed and optimized by the real optimizer (OptimizerLimit 1..100), the trees before and after checked by the extracted validator fold_ok, refusals by const_error; non-trivial = a fold happened / outcomes compared" % LIMITS,
         "samples": [cases[0]["line"], progs[0], progs[1]],
         "table_cases": len(cases), "table_folds": folded, "programs": len(pcases), "program_budget_runs_compared": compared,
-        "optimizer_refusals": refused, "disagreements": len(dis), "oracle_failures": len(fails)})
+        "optimizer_refusals": refused, "expression_trees_validated": len(ox_cases), "validator": ox_stats, "validator_rejections": len(ox_suspects), "disagreements": len(dis), "oracle_failures": len(fails)})
 
 def replay(payload, br):
     print(payload.get("why")); print(payload.get("script") or "")
